@@ -1217,4 +1217,1563 @@ theorem settingsByIndex_keys_nodup (tlvs : List (Nat × PVal)) : ((settingsByInd
   | cons kv rest ih => intro d h; exact ih _ (dictInsert_nodup kv d h)
 
 
+/-! ### Part 5: the dictionary of the generated tree -/
+
+theorem reparsed_append (x y : PForest) : (x ++ y).reparsed = x.reparsed ++ y.reparsed := by
+  show (PForest.append x y).reparsed = PForest.append x.reparsed y.reparsed
+  induction x with
+  | nil => rfl
+  | tok o t r ih => simp [PForest.append, PForest.reparsed, ih]
+  | node l k r _ ih =>
+    simp only [PForest.append, PForest.reparsed]
+    split
+    · exact ih
+    · simp [PForest.append, ih]
+
+theorem specForest_nil (ctx : Nat) (path : List Bytes) : specForest ctx path .nil = [] := by rw [specForest.eq_def]
+
+theorem specForest_tok (ctx : Nat) (path : List Bytes) (o : Bool) (t : Bytes) (r : PForest) :
+    specForest ctx path (.tok o t r) = specForest ctx path r := by rw [specForest.eq_def]
+
+theorem specForest_node (ctx : Nat) (path : List Bytes) (l : Option Bytes) (ks r : PForest) :
+    specForest ctx path (.node l ks r) =
+      (match nodeInfo ctx l with
+        | .dt =>
+          match ks with
+          | .node _ steps (.node _ terms .nil) =>
+            specForest (ntId "transform_statement") path steps ++ specForest (ntId "termination_statement") path terms
+          | _ => []
+        | .block m kw => specForest m (pushKw path kw) ks
+        | .leaf kw => leafEntry path kw ks.tokens
+        | .unknown => []) ++ specForest ctx path r := by rw [specForest.eq_def]; rfl
+
+theorem specForest_append (ctx : Nat) (path : List Bytes) (x y : PForest) :
+    specForest ctx path (x ++ y) = specForest ctx path x ++ specForest ctx path y := by
+  show specForest ctx path (PForest.append x y) = _
+  induction x with
+  | nil => simp [PForest.append, specForest_nil]
+  | tok o t r ih => simp [PForest.append, specForest_tok, ih]
+  | node l k r _ ih => simp [PForest.append, specForest_node, ih]
+
+theorem reparsed_flatten (fs : List PForest) : (PForest.flatten fs).reparsed = PForest.flatten (fs.map (·.reparsed)) := by
+  induction fs with
+  | nil => rfl
+  | cons f fs ih => simp [flatten_cons, reparsed_append, ih]
+
+theorem specForest_flatten (ctx : Nat) (path : List Bytes) (fs : List PForest) :
+    specForest ctx path (PForest.flatten fs) = fs.flatMap (specForest ctx path) := by
+  induction fs with
+  | nil => rfl
+  | cons f fs ih => simp [flatten_cons, specForest_append, ih]
+
+theorem isComment_string : isComment (some (b "string")) = false := by decide +kernel
+
+theorem strKids_reparsed (args : List Bytes) : (strKids args).reparsed = strKids args := by
+  induction args with
+  | nil => rfl
+  | cons a as ih => simp [strKids, PForest.reparsed, isComment_string, ih]
+
+theorem strKids_tokens (args : List Bytes) : (strKids args).tokens = args := by
+  induction args with
+  | nil => rfl
+  | cons a as ih => simp [strKids, PForest.tokens, ih]
+
+theorem spec_stmt {ctx : Nat} {l : Bytes} {kw : Option Bytes} (path : List Bytes) (args : List Bytes)
+    (hc : isComment (some l) = false) (h : nodeInfo ctx (some l) = .leaf kw) :
+    specForest ctx path (stmt l args).reparsed = leafEntry path kw args := by
+  simp only [stmt, PForest.reparsed, hc, Bool.false_eq_true, if_false, strKids_reparsed, specForest_node, h,
+    strKids_tokens, specForest_nil, List.append_nil]
+
+theorem spec_comment {ctx : Nat} {l : Bytes} (path : List Bytes) (args : List Bytes) (hc : isComment (some l) = true) :
+    specForest ctx path (stmt l args).reparsed = [] := by
+  simp [stmt, PForest.reparsed, hc, specForest_nil]
+
+theorem spec_block {ctx m : Nat} {l : Bytes} {kw : Option Bytes} (path : List Bytes) (kids : PForest)
+    (hc : isComment (some l) = false) (h : nodeInfo ctx (some l) = .block m kw) :
+    specForest ctx path (block (some l) kids).reparsed = specForest m (pushKw path kw) kids.reparsed := by
+  simp only [block, PForest.reparsed, hc, Bool.false_eq_true, if_false, specForest_node, h, specForest_nil,
+    List.append_nil]
+
+theorem spec_optStmt (path : List Bytes) (name s : Bytes) (hc : isComment (some (b "option")) = false)
+    (h : nodeInfo (L "value") (some (b "option")) = .leaf Option.none) :
+    specForest (L "value") path (optStmt name s).reparsed = leafEntry path Option.none [name, s] := by
+  simp only [optStmt, PForest.reparsed, hc, Bool.false_eq_true, if_false, strKids_reparsed, specForest_node, h,
+    PForest.tokens, strKids_tokens, specForest_nil, List.append_nil]
+
+theorem dtLabel_facts : isComment (some (b "data_transform")) = false ∧ isComment (some (b "steps")) = false ∧
+    isComment (some (b "termination")) = false := by decide +kernel
+
+theorem dt_info (ctx : Nat) : nodeInfo ctx (some (b "data_transform")) = .dt := by
+  simp [nodeInfo]
+
+theorem spec_dtKids (ctx : Nat) (path : List Bytes) (ds : List DOpt) :
+    specForest ctx path (dtKids ds).reparsed =
+      specForest tsN path (dtSteps ds).reparsed ++ specForest tstN path (dtTerms ds).reparsed := by
+  obtain ⟨h1, h2, h3⟩ := dtLabel_facts
+  simp only [dtKids, PForest.reparsed, h1, h2, h3, Bool.false_eq_true, if_false, specForest_node, dt_info,
+    specForest_nil, List.append_nil]
+  rfl
+
+
+section StrLit
+open C12 (dq sq bsl Txt replaceGo strReplace valueToStringStr Esc)
+
+/-! ### Part 5b: `value_to_string` on text without a backslash -/
+
+/-- text of one character of a `str` value inside the generated literal -/
+def strUnit (c : UInt8) : Txt := if c = dq then [bsl, dq] else [c]
+
+theorem replace_dq (s : Txt) : replaceGo [dq] [bsl, dq] s 0 = s.flatMap strUnit := by
+  induction s with
+  | nil => simp [replaceGo]
+  | cons c cs ih =>
+    rw [C12.replaceGo_cons_zero]
+    by_cases h : c = dq
+    · subst h; simp [List.isPrefixOf, strUnit, ih]
+    · have : [dq].isPrefixOf (c :: cs) = false := by simp [List.isPrefixOf, Ne.symm h]
+      simp [this, strUnit, h, ih]
+
+/-- no backslash is followed by a single quote -/
+def noBslSq : Txt → Bool
+  | c :: d :: r => !(c == bsl && d == sq) && noBslSq (d :: r)
+  | _ => true
+
+theorem replace_bslsq_id (t : Txt) (h : noBslSq t = true) : replaceGo [bsl, sq] [sq] t 0 = t := by
+  induction t with
+  | nil => simp [replaceGo]
+  | cons c cs ih =>
+    rw [C12.replaceGo_cons_zero]
+    cases cs with
+    | nil => simp [List.isPrefixOf, replaceGo]
+    | cons d r =>
+      simp only [noBslSq, Bool.and_eq_true, Bool.not_eq_eq_eq_not, Bool.not_true, Bool.and_eq_false_iff, beq_eq_false_iff_ne] at h
+      have hp : [bsl, sq].isPrefixOf (c :: d :: r) = false := by
+        simp only [List.isPrefixOf, Bool.and_true, Bool.and_eq_false_iff, beq_eq_false_iff_ne]
+        rcases h.1 with h1 | h1
+        · exact .inl (Ne.symm h1)
+        · exact .inr (Ne.symm h1)
+      simp [hp, ih h.2]
+
+theorem noBslSq_units (s : Txt) (h : noBackslash s = true) : noBslSq (s.flatMap strUnit) = true := by
+  induction s with
+  | nil => rfl
+  | cons c cs ih =>
+    have hc : c ≠ bsl := by
+      intro e; subst e; simp [noBackslash] at h
+    have hcs : noBackslash cs = true := by
+      simp only [noBackslash, List.contains_cons, Bool.not_eq_eq_eq_not, Bool.not_true, Bool.or_eq_false_iff] at h ⊢
+      exact h.2
+    have ih' := ih hcs
+    simp only [List.flatMap_cons]
+    by_cases hq : c = dq
+    · subst hq
+      simp only [strUnit, if_true, List.cons_append, List.nil_append]
+      cases hr : cs.flatMap strUnit with
+      | nil => decide
+      | cons d r =>
+        rw [hr] at ih'
+        have h1 : (bsl == bsl && dq == sq) = false := by decide
+        have h2 : (dq == bsl) = false := by decide
+        simp only [noBslSq, ih', Bool.and_true, h1, h2, Bool.false_and, Bool.not_false]
+    · simp only [strUnit, hq, if_false, List.cons_append, List.nil_append]
+      cases hr : cs.flatMap strUnit with
+      | nil => rfl
+      | cons d r =>
+        rw [hr] at ih'
+        simp [noBslSq, ih', hc]
+
+theorem valueToStringStr_eq (s : Txt) (h : noBackslash s = true) :
+    valueToStringStr s = dq :: (s.flatMap strUnit ++ [dq]) := by
+  unfold valueToStringStr
+  simp only [strReplace]
+  rw [if_neg (by simp), if_neg (by simp), replace_dq, replace_bslsq_id _ (noBslSq_units s h)]
+  rfl
+
+def strEsc (c : UInt8) : Esc := if c = dq then .dquote else .plain c
+
+/-- the literal of a text value without backslash decodes to that text -/
+theorem str_roundtrip (s : Txt) (h : noBackslash s = true) : C12.stringTokenToBytes (valueToStringStr s) = .ok s := by
+  have hu : s.flatMap strUnit = (s.map strEsc).flatMap Esc.text := by
+    clear h
+    induction s with
+    | nil => rfl
+    | cons c cs ih =>
+      simp only [List.flatMap_cons, List.map_cons, ih]
+      congr 1
+      unfold strUnit strEsc
+      split <;> rfl
+  have hv : (s.map strEsc).flatMap Esc.vals = s := by
+    clear h hu
+    induction s with
+    | nil => rfl
+    | cons c cs ih =>
+      simp only [List.flatMap_cons, List.map_cons, ih]
+      unfold strEsc
+      split
+      · rename_i hq; subst hq; rfl
+      · rfl
+  rw [valueToStringStr_eq s h, hu, C12.decode_units_eq _ ?_, hv]
+  intro e he
+  obtain ⟨c, hc, rfl⟩ := List.mem_map.mp he
+  unfold strEsc
+  split
+  · trivial
+  · show c ≠ bsl
+    intro e; subst e
+    simp [noBackslash, hc] at h
+
+theorem wfText_noBackslash (s : Bytes) (h : wfText s = true) : noBackslash s = true := by
+  simp only [wfText, List.all_eq_true, Bool.and_eq_true, bne_iff_ne] at h
+  simp only [noBackslash, Bool.not_eq_eq_eq_not, Bool.not_true, List.contains_eq_mem, decide_eq_false_iff_not]
+  intro hm
+  exact (h 92 hm).2 rfl
+
+theorem replicateX_noBackslash (n : Nat) : noBackslash (List.replicate n 88) = true := by
+  simp only [noBackslash, Bool.not_eq_eq_eq_not, Bool.not_true, List.contains_eq_mem, decide_eq_false_iff_not,
+    List.mem_replicate, not_and]
+  intro _ h; cases h
+
+
+end StrLit
+
+/-! ### Part 5c: entries of statements and of data transforms -/
+
+theorem leafEntry_one {path : List Bytes} (hl : listProps.contains path = false) (kw s : Bytes) :
+    leafEntry path (some kw) [s] = [(path ++ [kw], .raw (unquote s))] := by
+  unfold leafEntry; rw [if_neg (by rw [hl]; exact Bool.false_ne_true)]
+
+theorem leafEntry_two {path : List Bytes} (hl : listProps.contains path = false) (kw x y : Bytes) :
+    leafEntry path (some kw) [x, y] = [(path ++ [kw], .pair (unquote x) (unquote y))] := by
+  unfold leafEntry; rw [if_neg (by rw [hl]; exact Bool.false_ne_true)]
+
+theorem leafEntry_zero (path : List Bytes) (kw : Bytes) : leafEntry path (some kw) [] = [(path, .kw kw)] := by
+  unfold leafEntry; split <;> rfl
+
+theorem leafEntry_opt {path : List Bytes} (hl : listProps.contains path = false) (name s : Bytes) :
+    leafEntry path Option.none [name, s] = [(path ++ [name], .raw (unquote s))] := by
+  unfold leafEntry; rw [if_neg (by rw [hl]; exact Bool.false_ne_true)]
+
+theorem leafEntry_list {path : List Bytes} (hl : listProps.contains path = true) (kw t : Bytes) :
+    leafEntry path (some kw) [t] = [(path, .tuple kw [C12.stringTokenToBytes t])] := by
+  unfold leafEntry; rw [if_pos hl]; rfl
+
+/-- a statement with label `l` in context `ctx` is filed under keyword `kw` (and is not the resolver comment) -/
+def leafOK (ctx : Nat) (l : Bytes) (kw : Bytes) : Bool :=
+  !isComment (some l) && nodeInfo ctx (some l) == .leaf (some kw)
+
+/-- a block with label `l` in context `ctx`: children in `m`, keyword `kw` -/
+def blockInfoOK (ctx : Nat) (l : Bytes) (m : Nat) (kw : Bytes) : Bool :=
+  !isComment (some l) && nodeInfo ctx (some l) == .block m (some kw)
+
+theorem spec_stmt' {ctx : Nat} {l kw : Bytes} (h : leafOK ctx l kw = true) (path : List Bytes) (args : List Bytes) :
+    specForest ctx path (stmt l args).reparsed = leafEntry path (some kw) args := by
+  simp only [leafOK, Bool.and_eq_true, Bool.not_eq_eq_eq_not, Bool.not_true, beq_iff_eq] at h
+  exact spec_stmt path args h.1 h.2
+
+theorem spec_block' {ctx m : Nat} {l kw : Bytes} (h : blockInfoOK ctx l m kw = true) (path : List Bytes) (kids : PForest) :
+    specForest ctx path (block (some l) kids).reparsed = specForest m (path ++ [kw]) kids.reparsed := by
+  simp only [blockInfoOK, Bool.and_eq_true, Bool.not_eq_eq_eq_not, Bool.not_true, beq_iff_eq] at h
+  exact spec_block path kids h.1 h.2
+
+/-- entry of a one-literal statement with a `bytes` argument: exact bytes inside a list property, literal text elsewhere -/
+theorem leafEntry_bytes (path : List Bytes) (kw v : Bytes) :
+    leafEntry path (some kw) [C12.valueToString v] =
+      if listProps.contains path then [(path, .tuple kw [.ok v])] else [(path ++ [kw], .raw (litBytes v))] := by
+  split
+  · rename_i h; rw [leafEntry_list h, C12.roundtrip]
+  · rename_i h; rw [leafEntry_one (by simpa using h)]; rfl
+
+/-! transform steps -/
+
+def enLeafCheck (e : EnStep) : Bool :=
+  match bareCls (lower e.pyName) with
+  | some (t, l) => t == e.isTerm && leafOK (if e.isTerm then tstN else tsN) l e.kw
+  | none => false
+
+def argLeafCheck (a : ArgStep) : Bool :=
+  (dtArgTerms.contains (lower a.pyName) == a.isTerm) && leafOK (if a.isTerm then tstN else tsN) (lower a.pyName) a.kw
+
+theorem en_leaf (e : EnStep) : enLeafCheck e = true := by cases e <;> decide +kernel
+theorem arg_leaf (a : ArgStep) : argLeafCheck a = true := by cases a <;> decide +kernel
+
+/-- the two halves of what one option contributes -/
+def optSteps (path : List Bytes) (d : DOpt) : List Entry := specForest tsN path (dtClassify d).1.reparsed
+def optTerms (path : List Bytes) (d : DOpt) : List Entry := specForest tstN path (dtClassify d).2.reparsed
+
+theorem spec_toDOpt {t : TStep} {d : DOpt} (h : toDOpt t = some d) (path : List Bytes) :
+    (t.isTerm = false → optSteps path d = expStep path t ∧ optTerms path d = []) ∧
+    (t.isTerm = true → optSteps path d = [] ∧ optTerms path d = expStep path t) := by
+  cases t with
+  | build s => cases h
+  | static s v => cases h
+  | en e =>
+    cases h
+    have hc := en_leaf e
+    unfold enLeafCheck at hc
+    split at hc
+    · rename_i t l hb
+      simp only [Bool.and_eq_true, beq_iff_eq] at hc
+      obtain ⟨rfl, hl⟩ := hc
+      have hcl := dtClassify_bare hb
+      constructor
+      · intro ht
+        have ht' : EnStep.isTerm e = false := ht
+        simp only [ht', Bool.false_eq_true, if_false] at hcl hl
+        simp only [optSteps, optTerms, hcl, spec_stmt' hl, leafEntry_zero, expStep, PForest.reparsed, specForest_nil,
+          and_self]
+      · intro ht
+        have ht' : EnStep.isTerm e = true := ht
+        simp only [ht', if_true] at hcl hl
+        simp only [optSteps, optTerms, hcl, spec_stmt' hl, leafEntry_zero, expStep, PForest.reparsed, specForest_nil,
+          and_self]
+    · cases hc
+  | arg a v =>
+    cases h
+    have hc := arg_leaf a
+    simp only [argLeafCheck, Bool.and_eq_true, beq_iff_eq] at hc
+    obtain ⟨hterm, hl⟩ := hc
+    constructor
+    · intro ht
+      have ht' : ArgStep.isTerm a = false := ht
+      simp only [ht', Bool.false_eq_true, if_false] at hterm hl
+      have hcl : dtClassify (.pair (lower a.pyName) (.bytes v)) = (stmt (lower a.pyName) [C12.valueToString v], .nil) := by
+        simp only [dtClassify, hterm, Bool.false_eq_true, if_false, DArg.vts]
+      simp only [optSteps, optTerms, hcl, spec_stmt' hl, leafEntry_bytes, expStep, PForest.reparsed, specForest_nil,
+        and_true]
+    · intro ht
+      have ht' : ArgStep.isTerm a = true := ht
+      simp only [ht', if_true] at hterm hl
+      have hcl : dtClassify (.pair (lower a.pyName) (.bytes v)) = (.nil, stmt (lower a.pyName) [C12.valueToString v]) := by
+        simp only [dtClassify, hterm, if_true, DArg.vts]
+      simp only [optSteps, optTerms, hcl, spec_stmt' hl, leafEntry_bytes, expStep, PForest.reparsed, specForest_nil,
+        true_and]
+
+theorem spec_dtSteps (path : List Bytes) (ds : List DOpt) :
+    specForest tsN path (dtSteps ds).reparsed = ds.flatMap (optSteps path) := by
+  induction ds with
+  | nil => simp [dtSteps, PForest.flatten, PForest.reparsed, specForest_nil]
+  | cons d ds ih => rw [dtSteps_cons, reparsed_append, specForest_append, ih]; rfl
+
+theorem spec_dtTerms (path : List Bytes) (ds : List DOpt) :
+    specForest tstN path (dtTerms ds).reparsed = ds.flatMap (optTerms path) := by
+  induction ds with
+  | nil => simp [dtTerms, PForest.flatten, PForest.reparsed, specForest_nil]
+  | cons d ds ih => rw [dtTerms_cons, reparsed_append, specForest_append, ih]; rfl
+
+theorem opts_steps_only (path : List Bytes) (l : List TStep) (h : ∀ x ∈ l, x.isTerm = false) :
+    (opts l).flatMap (optSteps path) = l.flatMap (expStep path) ∧ (opts l).flatMap (optTerms path) = [] := by
+  induction l with
+  | nil => exact ⟨rfl, rfl⟩
+  | cons x l ih =>
+    obtain ⟨ih1, ih2⟩ := ih fun y hy => h y (by simp [hy])
+    have hx := h x (by simp)
+    rw [opts_cons]
+    simp only [List.flatMap_append, List.flatMap_cons, ih1, ih2, List.append_nil]
+    cases hd : toDOpt x with
+    | none =>
+      have : expStep path x = [] := by
+        cases x with
+        | build s => rfl
+        | static s v => rfl
+        | en e => cases hd
+        | arg a v => cases hd
+      simp [opts, hd, this]
+    | some d =>
+      obtain ⟨h1, h2⟩ := (spec_toDOpt hd path).1 hx
+      simp [opts, hd, h1, h2]
+
+/-- the entries of a well-formed BUILD group are its steps, in order -/
+theorem spec_group {g : List TStep} (h : wfGroup g = true) (ctx : Nat) (path : List Bytes) :
+    specForest ctx path (dtKids (opts g)).reparsed = g.flatMap (expStep path) := by
+  obtain ⟨pre, t, rfl, ht, hpre⟩ := wfGroup_split h
+  obtain ⟨d, hd⟩ := term_toDOpt ht
+  obtain ⟨h1, h2⟩ := opts_steps_only path pre hpre
+  obtain ⟨h3, h4⟩ := (spec_toDOpt hd path).2 ht
+  have ho : opts (pre ++ [t]) = opts pre ++ [d] := by rw [opts_append]; simp [opts, hd]
+  rw [spec_dtKids, spec_dtSteps, spec_dtTerms, ho]
+  simp only [List.flatMap_append, List.flatMap_cons, List.flatMap_nil, h1, h2, h3, h4, List.append_nil, List.nil_append]
+
+
+/-! ### Part 5d: http-get server output, client blocks -/
+
+def srvPath : List Bytes := [k "http-get", k "server", k "output"]
+
+theorem srvPath_list : listProps.contains srvPath = true := by decide +kernel
+
+theorem rstep_facts :
+    dtArgTerms.contains (b "append") = false ∧ dtArgTerms.contains (b "prepend") = false ∧
+    leafOK tsN (b "append") (k "append") = true ∧ leafOK tsN (b "prepend") (k "prepend") = true ∧
+    bareCls (b "base64") = some (false, b "base64") ∧ leafOK tsN (b "base64") (k "base64") = true ∧
+    bareCls (b "print") = some (true, b "print") ∧ leafOK tstN (b "print") (k "print") = true ∧
+    bareCls (b "netbios") = some (false, b "netbios") ∧ leafOK tsN (b "netbios") (k "netbios") = true ∧
+    bareCls (b "netbiosu") = some (false, b "netbiosu") ∧ leafOK tsN (b "netbiosu") (k "netbiosu") = true ∧
+    bareCls (b "base64url") = some (false, b "base64url") ∧ leafOK tsN (b "base64url") (k "base64url") = true ∧
+    bareCls (b "mask") = some (false, b "mask") ∧ leafOK tsN (b "mask") (k "mask") = true := by decide +kernel
+
+theorem spec_len_step (name : Bytes) (n : Nat) (hc : dtArgTerms.contains name = false) (hl : leafOK tsN name name = true) :
+    optSteps srvPath (.pair name (.str (List.replicate n 88))) = [(srvPath, .tuple name [.ok (List.replicate n 88)])] ∧
+    optTerms srvPath (.pair name (.str (List.replicate n 88))) = [] := by
+  have hcl : dtClassify (.pair name (.str (List.replicate n 88))) =
+      (stmt name [C12.valueToStringStr (List.replicate n 88)], .nil) := by
+    simp only [dtClassify, hc, Bool.false_eq_true, if_false, DArg.vts]
+  simp only [optSteps, optTerms, hcl, spec_stmt' hl, leafEntry_list srvPath_list, str_roundtrip _ (replicateX_noBackslash n),
+    PForest.reparsed, specForest_nil, and_self]
+
+theorem spec_flag_step {name l : Bytes} (hb : bareCls name = some (false, l)) (hl : leafOK tsN l l = true) :
+    optSteps srvPath (.bare name) = [(srvPath, .kw l)] ∧ optTerms srvPath (.bare name) = [] := by
+  have hcl := dtClassify_bare hb
+  simp only [Bool.false_eq_true, if_false] at hcl
+  simp only [optSteps, optTerms, hcl, spec_stmt' hl, leafEntry_zero, PForest.reparsed, specForest_nil, and_self]
+
+theorem spec_flag_term {name l : Bytes} (hb : bareCls name = some (true, l)) (hl : leafOK tstN l l = true) :
+    optSteps srvPath (.bare name) = [] ∧ optTerms srvPath (.bare name) = [(srvPath, .kw l)] := by
+  have hcl := dtClassify_bare hb
+  simp only [if_true] at hcl
+  simp only [optSteps, optTerms, hcl, spec_stmt' hl, leafEntry_zero, PForest.reparsed, specForest_nil, and_self]
+
+theorem spec_recoverOpt (r : RStep) :
+    optSteps srvPath (recoverOpt r) = (if r.isTerm then [] else [expRStep r]) ∧
+    optTerms srvPath (recoverOpt r) = (if r.isTerm then [expRStep r] else []) := by
+  obtain ⟨a1, a2, a3, a4, b1, b2, p1, p2, n1, n2, u1, u2, c1, c2, m1, m2⟩ := rstep_facts
+  cases r with
+  | append n => exact spec_len_step _ n a1 a3
+  | prepend n => exact spec_len_step _ n a2 a4
+  | base64 => exact spec_flag_step b1 b2
+  | print => exact spec_flag_term p1 p2
+  | netbios => exact spec_flag_step n1 n2
+  | netbiosu => exact spec_flag_step u1 u2
+  | base64url => exact spec_flag_step c1 c2
+  | mask => exact spec_flag_step m1 m2
+
+/-- the entries of the generated http-get.server.output block -/
+theorem spec_recover (l : List RStep) (ctx : Nat) :
+    specForest ctx srvPath (dtKids (l.map recoverOpt)).reparsed = expServer l := by
+  rw [spec_dtKids, spec_dtSteps, spec_dtTerms]
+  unfold expServer
+  congr 1
+  · induction l with
+    | nil => rfl
+    | cons r l ih =>
+      simp only [List.map_cons, List.flatMap_cons, ih, (spec_recoverOpt r).1, List.filter_cons]
+      cases r.isTerm <;> simp
+  · induction l with
+    | nil => rfl
+    | cons r l ih =>
+      simp only [List.map_cons, List.flatMap_cons, ih, (spec_recoverOpt r).2, List.filter_cons]
+      cases r.isTerm <;> simp
+
+/-! client blocks -/
+
+def hdrOf : TStep → Option (Bytes × Bytes)
+  | .static .hdr v => some (partition2 [58, 32] v)
+  | .static .hostHdr v => some (partition2 [58, 32] v)
+  | _ => Option.none
+
+def paramOf : TStep → Option (Bytes × Bytes)
+  | .static .param v => some (partition2 [61] v)
+  | _ => Option.none
+
+theorem hdrOf_build (s : Bytes) : hdrOf (.build s) = Option.none := rfl
+theorem hdrOf_en (e : EnStep) : hdrOf (.en e) = Option.none := rfl
+theorem hdrOf_arg (a : ArgStep) (v : Bytes) : hdrOf (.arg a v) = Option.none := rfl
+theorem hdrOf_param (v : Bytes) : hdrOf (.static .param v) = Option.none := rfl
+theorem hdrOf_hdr (v : Bytes) : hdrOf (.static .hdr v) = some (partition2 [58, 32] v) := rfl
+theorem hdrOf_host (v : Bytes) : hdrOf (.static .hostHdr v) = some (partition2 [58, 32] v) := rfl
+theorem paramOf_build (s : Bytes) : paramOf (.build s) = Option.none := rfl
+theorem paramOf_en (e : EnStep) : paramOf (.en e) = Option.none := rfl
+theorem paramOf_arg (a : ArgStep) (v : Bytes) : paramOf (.arg a v) = Option.none := rfl
+theorem paramOf_param (v : Bytes) : paramOf (.static .param v) = some (partition2 [61] v) := rfl
+theorem paramOf_hdr (v : Bytes) : paramOf (.static .hdr v) = Option.none := rfl
+theorem paramOf_host (v : Bytes) : paramOf (.static .hostHdr v) = Option.none := rfl
+
+theorem reqRun_headers_params (prog : List TStep) : ∀ a : ReqAcc,
+    (prog.foldl reqStep a).headers = a.headers ++ prog.filterMap hdrOf ∧
+    (prog.foldl reqStep a).params = a.params ++ prog.filterMap paramOf := by
+  induction prog with
+  | nil => intro a; simp
+  | cons x rest ih =>
+    intro a
+    rw [List.foldl_cons]
+    obtain ⟨h1, h2⟩ := ih (reqStep a x)
+    rw [h1, h2]
+    cases x with
+    | build s => simp [reqStep, List.filterMap_cons, hdrOf_build, paramOf_build]
+    | en e => simp [reqStep, List.filterMap_cons, hdrOf_en, paramOf_en]
+    | arg y v => simp [reqStep, List.filterMap_cons, hdrOf_arg, paramOf_arg]
+    | static s v =>
+      cases s <;> simp [reqStep, List.filterMap_cons, hdrOf_hdr, hdrOf_host, hdrOf_param, paramOf_hdr, paramOf_host,
+        paramOf_param]
+
+theorem client_facts :
+    leafOK clientN (b "header") (k "header") = true ∧ leafOK clientN (b "parameter") (k "parameter") = true ∧
+    [k "metadata", k "output", k "id"].all (fun s => blockInfoOK clientN s dtN s) = true := by decide +kernel
+
+theorem flatMap_congr' {α β} {l : List α} {f g : α → List β} (h : ∀ x ∈ l, f x = g x) : l.flatMap f = l.flatMap g := by
+  induction l with
+  | nil => rfl
+  | cons x xs ih => simp only [List.flatMap_cons, h x (by simp), ih fun y hy => h y (by simp [hy])]
+
+theorem spec_pairStmts {l kw : Bytes} (h : leafOK clientN l kw = true) {path : List Bytes}
+    (hl : listProps.contains path = false) (ps : List (Bytes × Bytes)) :
+    specForest clientN path (pairStmts l ps).reparsed =
+      ps.map fun p => (path ++ [kw], .pair (litBytes p.1) (litBytes p.2)) := by
+  unfold pairStmts
+  rw [reparsed_flatten, specForest_flatten]
+  induction ps with
+  | nil => rfl
+  | cons p ps ih =>
+    simp only [List.map_cons, List.flatMap_cons, ih, spec_stmt' h, leafEntry_two hl]
+    rfl
+
+theorem expClient_eq (blk : Bytes) (prog : List TStep) :
+    expClient blk prog =
+      ((prog.filterMap hdrOf).map fun p => ([blk, k "client"] ++ [k "header"], DVal.pair (litBytes p.1) (litBytes p.2))) ++
+      ((prog.filterMap paramOf).map fun p => ([blk, k "client"] ++ [k "parameter"], DVal.pair (litBytes p.1) (litBytes p.2))) ++
+      (splitBuilds prog).flatMap fun g => g.2.flatMap (expStep ([blk, k "client"] ++ [g.1])) := by
+  unfold expClient
+  congr 1
+  · congr 1
+    · induction prog with
+      | nil => rfl
+      | cons x rest ih =>
+        cases x with
+        | build s => simpa [List.filterMap_cons, hdrOf_build] using ih
+        | en e => simpa [List.filterMap_cons, hdrOf_en] using ih
+        | arg y v => simpa [List.filterMap_cons, hdrOf_arg] using ih
+        | static s v => cases s <;> simpa [List.filterMap_cons, hdrOf_hdr, hdrOf_host, hdrOf_param] using ih
+    · induction prog with
+      | nil => rfl
+      | cons x rest ih =>
+        cases x with
+        | build s => simpa [List.filterMap_cons, paramOf_build] using ih
+        | en e => simpa [List.filterMap_cons, paramOf_en] using ih
+        | arg y v => simpa [List.filterMap_cons, paramOf_arg] using ih
+        | static s v => cases s <;> simpa [List.filterMap_cons, paramOf_hdr, paramOf_host, paramOf_param] using ih
+
+/-- the entries of what the REQUEST / POSTREQ branch appends to a client block -/
+theorem spec_request {allowed : List Bytes} {prog : List TStep} (h : wfProgram allowed prog = true)
+    (hb : ∀ s ∈ allowed, blockInfoOK clientN s dtN s = true) (blk : Bytes)
+    (hl : listProps.contains [blk, k "client"] = false) :
+    specForest clientN [blk, k "client"] (requestKids prog).reparsed = expClient blk prog := by
+  obtain ⟨hh, hp, _⟩ := client_facts
+  unfold requestKids
+  simp only [reparsed_append, specForest_append]
+  have hhp := reqRun_headers_params prog ⟨Option.none, [], [], []⟩
+  rw [spec_pairStmts hh hl, spec_pairStmts hp hl, reqRun_groups h, expClient_eq]
+  unfold reqRun
+  rw [hhp.1, hhp.2]
+  simp only [List.nil_append, List.append_assoc]
+  congr 2
+  rw [reparsed_flatten, specForest_flatten]
+  simp only [List.map_map, List.flatMap_map]
+  simp only [wfProgram, Bool.and_eq_true, List.all_eq_true, List.contains_eq_mem, decide_eq_true_eq] at h
+  apply flatMap_congr'
+  intro sg hsg
+  have := h.2 sg hsg
+  simp only [Function.comp]
+  rw [spec_block' (hb sg.1 this.1), spec_group this.2]
+
+
+/-! ### Part 5e: process-inject transform, execute, BeaconGate -/
+
+theorem st_facts : leafOK stN (b "prepend") (k "prepend") = true ∧ leafOK stN (b "append") (k "append") = true := by
+  decide +kernel
+
+theorem spec_injKids (kw : Bytes) (l : List (Bool × Bytes)) :
+    specForest stN [k "process-inject", kw] (injKids l).reparsed = expInjT kw l := by
+  obtain ⟨hp, ha⟩ := st_facts
+  unfold injKids expInjT
+  rw [reparsed_append, specForest_append]
+  congr 1
+  · cases injLast true l with
+    | none => simp [PForest.reparsed, specForest_nil]
+    | some v =>
+      dsimp only
+      split
+      · simp [PForest.reparsed, specForest_nil]
+      · rw [spec_stmt' hp, leafEntry_bytes]
+  · cases injLast false l with
+    | none => simp [PForest.reparsed, specForest_nil]
+    | some v =>
+      dsimp only
+      split
+      · simp [PForest.reparsed, specForest_nil]
+      · rw [spec_stmt' ha, leafEntry_bytes]
+
+/-! execute -/
+
+def execPath : List Bytes := [k "process-inject", k "execute"]
+
+theorem exec_facts :
+    listProps.contains execPath = true ∧
+    leafOK execN (b "createthread_special") (k "CreateThread") = true ∧
+    leafOK execN (b "createremotethread_special") (k "CreateRemoteThread") = true ∧
+    execEnable.all (fun s => !s.contains 32 && leafOK execN (dashToUnderscore (lower s)) (execKw s)) = true := by
+  decide +kernel
+
+theorem noBackslash_drop (s : Bytes) (n : Nat) (h : noBackslash s = true) : noBackslash (s.drop n) = true := by
+  simp only [noBackslash, Bool.not_eq_eq_eq_not, Bool.not_true, List.contains_eq_mem, decide_eq_false_iff_not] at h ⊢
+  exact fun hm => h (List.mem_of_mem_drop hm)
+
+theorem noBackslash_take (s : Bytes) (n : Nat) (h : noBackslash s = true) : noBackslash (s.take n) = true := by
+  simp only [noBackslash, Bool.not_eq_eq_eq_not, Bool.not_true, List.contains_eq_mem, decide_eq_false_iff_not] at h ⊢
+  exact fun hm => h (List.mem_of_mem_take hm)
+
+theorem partition2_snd_mem (sep s : Bytes) : ∀ x ∈ (partition2 sep s).2, x ∈ s := by
+  induction s with
+  | nil => simp [partition2]
+  | cons c cs ih =>
+    intro x hx
+    simp only [partition2] at hx
+    split at hx
+    · exact List.mem_of_mem_drop hx
+    · exact List.mem_cons_of_mem _ (ih x hx)
+
+theorem noBackslash_slice (s : Bytes) (h : noBackslash s = true) :
+    noBackslash (pySliceTo (pySliceFrom (partition2 [32] s).2 1) (some (-1))) = true := by
+  have h2 : noBackslash (partition2 [32] s).2 = true := by
+    simp only [noBackslash, Bool.not_eq_eq_eq_not, Bool.not_true, List.contains_eq_mem, decide_eq_false_iff_not] at h ⊢
+    exact fun hm => h (partition2_snd_mem _ _ _ hm)
+  simp only [pySliceFrom, pySliceTo]
+  split <;> split <;> first | exact noBackslash_take _ _ (noBackslash_drop _ _ h2) | exact noBackslash_drop _ _ h2
+
+theorem spec_execItem {s : Bytes} (h : wfExecItem (some s) = true) :
+    ∃ f, execItem (some s) = .ok f ∧ specForest execN execPath f.reparsed = expExecItem s := by
+  obtain ⟨hlist, hct, hcrt, hen⟩ := exec_facts
+  refine ⟨_, rfl, ?_⟩
+  simp only [wfExecItem, Bool.and_eq_true, Bool.or_eq_true, decide_eq_true_eq] at h
+  obtain ⟨hnb, hcase⟩ := h
+  rw [reparsed_append, specForest_append]
+  rcases hcase with hmem | ⟨⟨hsp, hname⟩, hlen⟩
+  · have hm : s ∈ execEnable := by simpa using hmem
+    have := List.all_eq_true.mp hen s hm
+    simp only [Bool.and_eq_true, Bool.not_eq_eq_eq_not, Bool.not_true] at this
+    simp only [this.1, Bool.false_eq_true, if_false, hmem, if_true, PForest.reparsed, specForest_nil, List.nil_append,
+      spec_stmt' this.2, leafEntry_zero, expExecItem]
+    rfl
+  · have hnm : execEnable.contains s = false := by
+      cases hc : execEnable.contains s with
+      | false => rfl
+      | true =>
+        have hm : s ∈ execEnable := by simpa using hc
+        have := List.all_eq_true.mp hen s hm
+        simp only [Bool.and_eq_true, Bool.not_eq_eq_eq_not, Bool.not_true] at this
+        rw [hsp] at this
+        exact absurd this.1 (by simp)
+    simp only [hsp, if_true, hnm, Bool.false_eq_true, if_false, PForest.reparsed, specForest_nil, List.append_nil,
+      expExecItem]
+    have hval := noBackslash_slice s hnb
+    rcases hname with h1 | h1
+    · have e1 : k "CreateThread" = b "CreateThread" := rfl
+      simp only [h1]
+      rw [if_pos e1, spec_stmt' hct, leafEntry_list hlist, str_roundtrip _ hval]
+      rfl
+    · have e1 : ¬ k "CreateRemoteThread" = b "CreateThread" := by decide +kernel
+      have e2 : k "CreateRemoteThread" = b "CreateRemoteThread" := rfl
+      simp only [h1]
+      rw [if_neg e1, if_pos e2, spec_stmt' hcrt, leafEntry_list hlist, str_roundtrip _ hval]
+      rfl
+
+theorem spec_execKids (l : List (Option Bytes)) (h : l.all wfExecItem = true) :
+    ∃ f, execKids l = .ok f ∧
+      specForest execN execPath f.reparsed = l.flatMap fun i => match i with | some s => expExecItem s | Option.none => [] := by
+  induction l with
+  | nil => exact ⟨.nil, rfl, by simp [PForest.reparsed, specForest_nil]⟩
+  | cons i is ih =>
+    simp only [List.all_cons, Bool.and_eq_true] at h
+    obtain ⟨r, hr, hsr⟩ := ih h.2
+    cases i with
+    | none => simp [wfExecItem] at h
+    | some s =>
+      obtain ⟨f, hf, hsf⟩ := spec_execItem h.1
+      refine ⟨f ++ r, by simp only [execKids, hf, hr], ?_⟩
+      rw [reparsed_append, specForest_append, hsf, hsr]
+      rfl
+
+/-! BeaconGate -/
+
+def gatePath : List Bytes := [k "stage", k "beacon_gate"]
+
+theorem gate_leaf_facts : gateLabels.all (fun s => leafOK gateN (lower s) s) = true := by decide +kernel
+
+theorem spec_gateKids (l : List Bytes) (h : l.all gateLabels.contains = true) :
+    specForest gateN gatePath (PForest.flatten (l.map fun s => stmt (lower s) [])).reparsed =
+      l.map fun name => (gatePath, DVal.kw name) := by
+  rw [reparsed_flatten, specForest_flatten]
+  induction l with
+  | nil => rfl
+  | cons s l ih =>
+    simp only [List.all_cons, Bool.and_eq_true] at h
+    have hm : s ∈ gateLabels := by simpa using h.1
+    have hl := List.all_eq_true.mp gate_leaf_facts s hm
+    simp only [List.map_cons, List.flatMap_cons, spec_stmt' hl, leafEntry_zero]
+    rw [← ih h.2]
+    simp [List.map_map]
+
+
+/-! ### Part 5f: the model's chain and the property's table say the same, setting by setting -/
+
+/-- dictionary path (profile keywords) of the statements of each block object -/
+def pathKw : Blk → List Bytes
+  | .profile => []
+  | .httpGet => [k "http-get"]
+  | .httpPost => [k "http-post"]
+  | .stage => [k "stage"]
+  | .procInj => [k "process-inject"]
+  | .dns => [k "dns-beacon"]
+  | .httpBeacon => [k "http-beacon"]
+  | .getClient => [k "http-get", k "client"]
+  | .postClient => [k "http-post", k "client"]
+
+theorem pathKw_notList (kb : Blk) : listProps.contains (pathKw kb) = false := by cases kb <;> decide +kernel
+
+def blkCode : Blk → Nat
+  | .profile => 0 | .httpGet => 1 | .httpPost => 2 | .stage => 3 | .procInj => 4 | .dns => 5 | .httpBeacon => 6
+  | .getClient => 7 | .postClient => 8
+
+def allBlks : List Blk := [.profile, .httpGet, .httpPost, .stage, .procInj, .dns, .httpBeacon, .getClient, .postClient]
+
+theorem pathKw_inj_check : allBlks.all (fun x => allBlks.all fun y => x == y || !(pathKw x == pathKw y)) = true := by
+  decide +kernel
+
+theorem mem_allBlks (x : Blk) : x ∈ allBlks := by cases x <;> simp [allBlks]
+
+theorem pathKw_inj {x y : Blk} (h : pathKw x = pathKw y) : x = y := by
+  have := List.all_eq_true.mp (List.all_eq_true.mp pathKw_inj_check x (mem_allBlks x)) y (mem_allBlks y)
+  simp only [Bool.or_eq_true, beq_iff_eq, Bool.not_eq_eq_eq_not, Bool.not_true, beq_eq_false_iff_ne] at this
+  rcases this with h1 | h1
+  · exact h1
+  · exact absurd h h1
+
+theorem pathKw_not_server (kb : Blk) : (some (pathKw kb) == some [k "http-get", k "server"]) = false := by
+  cases kb <;> decide +kernel
+
+/-- the model's action and the property's item describe the same dictionary entries -/
+def agreeB : Act → SpecAct → Bool
+  | .pass, .skip => true
+  | .profOpt name, .plain key => key == [name]
+  | .blkOpt kb l, .plain key =>
+    !isComment (some l) &&
+      match nodeInfo (ctxOf kb) (some l) with
+      | .leaf (some kw) => key == pathKw kb ++ [kw]
+      | _ => false
+  | .blkOpt _ l, .skip => isComment (some l)
+  | .blkConst kb l t, .const key t' =>
+    !isComment (some l) && unquote (C12.valueToStringStr t) == t' &&
+      match nodeInfo (ctxOf kb) (some l) with
+      | .leaf (some kw) => key == pathKw kb ++ [kw]
+      | _ => false
+  | .uris, .uris => true
+  | .recover, .recover => true
+  | .request c, .client blk => (c == .getClient || c == .postClient) && pathKw c == [blk, k "client"]
+  | .perms l t f, .perms key t' f' =>
+    t == t' && f == f' && !isComment (some l) &&
+      match nodeInfo (ctxOf .procInj) (some l) with
+      | .leaf (some kw) => key == pathKw .procInj ++ [kw]
+      | _ => false
+  | .injT l, .injT kw => blockInfoOK (ctxOf .procInj) l stN kw
+  | .execute, .execute => true
+  | .allocator, .allocator => true
+  | .gate, .gate => true
+  | _, _ => false
+
+def agreeAt (idx : Nat) : Bool :=
+  match actionTable.find? (·.1 == idx), specTable.find? (·.1 == idx) with
+  | some (_, g, a), some (_, g', s) => g == g' && agreeB a s
+  | some (_, _, a), Option.none => agreeB a .skip
+  | Option.none, some _ => false
+  | Option.none, Option.none => true
+
+theorem agree_small : (List.range 100).all agreeAt = true := by decide +kernel
+
+theorem tables_small : (actionTable.all (·.1 < 100) && specTable.all (·.1 < 100)) = true := by decide +kernel
+
+theorem agreeAt_all (idx : Nat) : agreeAt idx = true := by
+  by_cases h : idx < 100
+  · exact List.all_eq_true.mp agree_small idx (by simpa using h)
+  · have ht := tables_small
+    simp only [Bool.and_eq_true, List.all_eq_true, decide_eq_true_eq] at ht
+    have h1 : actionTable.find? (·.1 == idx) = Option.none := by
+      rw [List.find?_eq_none]
+      intro x hx hc
+      have := ht.1 x hx
+      simp only [beq_iff_eq] at hc
+      omega
+    have h2 : specTable.find? (·.1 == idx) = Option.none := by
+      rw [List.find?_eq_none]
+      intro x hx hc
+      have := ht.2 x hx
+      simp only [beq_iff_eq] at hc
+      omega
+    simp [agreeAt, h1, h2]
+
+theorem agree_all (idx : Nat) (v : PVal) : agreeB (actionOf idx v) (specOf idx v) = true := by
+  have h := agreeAt_all idx
+  unfold agreeAt at h
+  unfold actionOf specOf
+  split at h
+  · rename_i x1 g a x2 g' s h1 h2
+    simp only [Bool.and_eq_true, beq_iff_eq] at h
+    obtain ⟨rfl, hab⟩ := h
+    rw [h1, h2]
+    dsimp only
+    split
+    · rfl
+    · exact hab
+  · rename_i x1 g a h1 h2
+    rw [h1, h2]
+    dsimp only
+    split
+    · rfl
+    · exact h
+  · cases h
+  · rename_i h1 h2
+    rw [h1, h2]
+    rfl
+
+
+/-! ### Part 5g: one branch of the chain adds exactly the entries the property's table promises -/
+
+/-- dictionary of the statements collected so far in block `kb` -/
+def D (st : St) (kb : Blk) : List Entry := specForest (ctxOf kb) (pathKw kb) (st.f kb).reparsed
+
+theorem D_app (st : St) (kb : Blk) (g : PForest) (kb' : Blk) :
+    D (st.app kb g) kb' = D st kb' ++ (if kb' = kb then specForest (ctxOf kb) (pathKw kb) g.reparsed else []) := by
+  unfold D St.app
+  dsimp only
+  split
+  · rename_i h; subst h; rw [reparsed_append, specForest_append]
+  · simp
+
+/-- what the setting contributes to block `kb` according to the property's table -/
+def contrib (uris : List (Option Bytes)) (s : SpecAct) (v : PVal) (kb : Blk) : List Entry :=
+  if specBlock s == some (pathKw kb) then specEntries uris s v else []
+
+theorem app_case {uris : List (Option Bytes)} {st : St} {kb : Blk} {g : PForest} {s : SpecAct} {v : PVal}
+    (hb : specBlock s = some (pathKw kb)) (hg : specForest (ctxOf kb) (pathKw kb) g.reparsed = specEntries uris s v) :
+    ∀ kb', D (st.app kb g) kb' = D st kb' ++ contrib uris s v kb' := by
+  intro kb'
+  rw [D_app, contrib, hb]
+  by_cases h : kb' = kb
+  · subst h; simp [hg]
+  · have : ¬ pathKw kb = pathKw kb' := fun e => h (pathKw_inj e).symm
+    simp [h, this]
+
+theorem noop_case {uris : List (Option Bytes)} {st : St} {s : SpecAct} {v : PVal}
+    (h : specBlock s = Option.none ∨ specEntries uris s v = []) : ∀ kb', D st kb' = D st kb' ++ contrib uris s v kb' := by
+  intro kb'
+  unfold contrib
+  rcases h with h | h
+  · simp [h]
+  · simp [h]
+
+theorem server_not_pathKw (kb : Blk) : (specBlock .recover == some (pathKw kb)) = false := by
+  cases kb <;> decide +kernel
+
+theorem contrib_recover_nil (uris : List (Option Bytes)) (v : PVal) (kb : Blk) : contrib uris .recover v kb = [] := by
+  unfold contrib
+  rw [server_not_pathKw]
+  rfl
+
+theorem mapM_id_filterMap (uris : List (Option Bytes)) (us : List Bytes) (h : uris.mapM id = some us) :
+    uris.filterMap id = us := by
+  induction uris generalizing us with
+  | nil => simp at h; simp [h]
+  | cons u rest ih =>
+    cases u with
+    | none => simp at h
+    | some x =>
+      simp only [List.mapM_cons, id_eq, Option.pure_def, Option.bind_eq_bind, Option.bind_some] at h
+      cases hr : rest.mapM id with
+      | none => simp [hr] at h
+      | some r =>
+        simp only [hr, Option.bind_some, Option.some.injEq] at h
+        subst h
+        simp [ih r hr]
+
+theorem misc_leaf_facts :
+    isComment (some (b "option")) = false ∧ nodeInfo (L "value") (some (b "option")) = .leaf Option.none ∧
+    leafOK (ctxOf .httpGet) (b "uri") (k "uri") = true ∧
+    leafOK (ctxOf .procInj) (b "allocator") (k "allocator") = true ∧
+    blockInfoOK (ctxOf .procInj) (b "execute") execN (k "execute") = true ∧
+    blockInfoOK (ctxOf .stage) (b "beacon_gate") gateN (k "beacon_gate") = true ∧
+    unquote (C12.valueToStringStr (b "true")) = k "true" ∧ unquote (C12.valueToStringStr (b "false")) = k "false" ∧
+    unquote (C12.valueToStringStr (b "NtMapViewOfSection")) = k "NtMapViewOfSection" ∧
+    unquote (C12.valueToStringStr (b "VirtualAllocEx")) = k "VirtualAllocEx" := by decide +kernel
+
+theorem leaf_of_agree {ctx : Nat} {l : Bytes} {key path : List Bytes}
+    (hc : isComment (some l) = false)
+    (h : (match nodeInfo ctx (some l) with
+      | .leaf (some kw) => key == path ++ [kw]
+      | _ => false) = true) : ∃ kw, leafOK ctx l kw = true ∧ key = path ++ [kw] := by
+  split at h
+  · rename_i kw hn
+    exact ⟨kw, by simp [leafOK, hc, hn], by simpa using h⟩
+  · cases h
+
+theorem dropLast_concat' (p : List Bytes) (x : Bytes) : (p ++ [x]).dropLast = p := by simp
+
+/-- the entries a branch adds to every block are the ones the property's table lists for the setting; `c2_recover`
+is only touched by the RECOVER branch -/
+theorem runAct_spec (uris : List (Option Bytes)) (st st' : St) (v : PVal) (a : Act) (s : SpecAct)
+    (hag : agreeB a s = true) (hw : wfAct uris a v = true) (hr : runAct uris st v a = .ok st') :
+    (∀ kb, D st' kb = D st kb ++ contrib uris s v kb) ∧
+    ((a ≠ .recover ∧ st'.recover = st.recover ∧ s ≠ .recover) ∨
+     (∃ l, v = .recover l ∧ st'.recover = l.map recoverOpt ∧ s = .recover ∧ (l.filter (·.isTerm)).length = 1)) := by
+  obtain ⟨hoc, hoi, huri, halloc, hexec, hgate, qt, qf, qn, qv⟩ := misc_leaf_facts
+  cases a with
+  | pass =>
+    cases s <;> simp [agreeB] at hag
+    cases hr
+    exact ⟨noop_case (.inl rfl), .inl ⟨by simp, rfl, by simp⟩⟩
+  | profOpt name =>
+    cases s <;> simp [agreeB] at hag
+    rename_i key
+    subst hag
+    obtain ⟨sv, hsv⟩ := wfScalar_vts (by simpa [wfAct] using hw)
+    simp only [runAct, hsv, Except.ok.injEq] at hr
+    subst hr
+    refine ⟨app_case (kb := .profile) rfl ?_, .inl ⟨by simp, rfl, by simp⟩⟩
+    rw [show ctxOf .profile = L "value" from rfl, spec_optStmt _ _ _ hoc hoi, leafEntry_opt (pathKw_notList .profile)]
+    simp [specEntries, lit, hsv, pathKw]
+  | blkOpt kb l =>
+    obtain ⟨sv, hsv⟩ := wfScalar_vts (by simpa [wfAct] using hw)
+    simp only [runAct, hsv, Except.ok.injEq] at hr
+    subst hr
+    cases s <;> simp only [agreeB, Bool.and_eq_true, Bool.not_eq_eq_eq_not, Bool.not_true, Bool.false_eq_true] at hag
+    · -- the resolver comment
+      refine ⟨?_, .inl ⟨by simp, rfl, by simp⟩⟩
+      intro kb'
+      rw [D_app, spec_comment _ _ hag]
+      simp [contrib, specBlock]
+    · rename_i key
+      obtain ⟨kw, hl, rfl⟩ := leaf_of_agree hag.1 hag.2
+      refine ⟨app_case (by simp [specBlock]) ?_, .inl ⟨by simp, rfl, by simp⟩⟩
+      rw [spec_stmt' hl, leafEntry_one (pathKw_notList kb)]
+      simp [specEntries, lit, hsv]
+  | blkConst kb l t =>
+    simp only [runAct, Except.ok.injEq] at hr
+    subst hr
+    cases s <;> simp only [agreeB, Bool.and_eq_true, Bool.not_eq_eq_eq_not, Bool.not_true, Bool.false_eq_true, beq_iff_eq] at hag
+    rename_i key t'
+    obtain ⟨kw, hl, rfl⟩ := leaf_of_agree hag.1.1 hag.2
+    refine ⟨app_case (by simp [specBlock]) ?_, .inl ⟨by simp, rfl, by simp⟩⟩
+    rw [spec_stmt' hl, leafEntry_one (pathKw_notList kb), hag.1.2]
+    rfl
+  | uris =>
+    cases s <;> simp [agreeB] at hag
+    simp only [runAct, joinUris] at hr
+    cases hm : uris.mapM id with
+    | none => simp [hm] at hr
+    | some us =>
+      simp only [hm, Except.ok.injEq] at hr
+      subst hr
+      refine ⟨app_case (kb := .httpGet) rfl ?_, .inl ⟨by simp, rfl, by simp⟩⟩
+      rw [spec_stmt' huri, leafEntry_one (pathKw_notList .httpGet)]
+      simp only [specEntries, mapM_id_filterMap uris us hm, litStr, pathKw]
+      rfl
+  | recover =>
+    cases s <;> simp [agreeB] at hag
+    cases v with
+    | recover l =>
+      simp only [runAct, Except.ok.injEq] at hr
+      subst hr
+      refine ⟨?_, .inr ⟨l, rfl, rfl, rfl, by simpa [wfAct] using hw⟩⟩
+      intro kb
+      rw [contrib_recover_nil]
+      simp [D]
+    | _ => simp [wfAct] at hw
+  | request c =>
+    cases s <;> simp only [agreeB, Bool.and_eq_true, Bool.or_eq_true, beq_iff_eq, Bool.false_eq_true] at hag
+    rename_i blk
+    obtain ⟨hc, hp⟩ := hag
+    obtain ⟨_, _, hb⟩ := client_facts
+    have hb' := List.all_eq_true.mp hb
+    cases v with
+    | transform prog =>
+      simp only [runAct, Except.ok.injEq] at hr
+      subst hr
+      have hctx : ctxOf c = clientN := by rcases hc with rfl | rfl <;> rfl
+      have hl : listProps.contains [blk, k "client"] = false := hp ▸ pathKw_notList c
+      refine ⟨app_case (by simp [specBlock, hp]) ?_, .inl ⟨by simp, rfl, by simp⟩⟩
+      rw [hctx, hp]
+      rcases hc with rfl | rfl
+      · exact spec_request (allowed := [k "metadata", k "output"]) (by simpa [wfAct] using hw)
+          (fun s hs => hb' s (by simp at hs ⊢; rcases hs with rfl | rfl <;> simp)) blk hl
+      · exact spec_request (allowed := [k "id", k "output"]) (by simpa [wfAct] using hw)
+          (fun s hs => hb' s (by simp at hs ⊢; rcases hs with rfl | rfl <;> simp)) blk hl
+    | _ => cases c <;> simp [wfAct] at hw
+  | perms l t f =>
+    cases s <;> simp only [agreeB, Bool.and_eq_true, Bool.not_eq_eq_eq_not, Bool.not_true, Bool.false_eq_true, beq_iff_eq] at hag
+    rename_i key t' f'
+    obtain ⟨⟨⟨rfl, rfl⟩, hc⟩, hm⟩ := hag
+    obtain ⟨kw, hl, rfl⟩ := leaf_of_agree hc hm
+    simp only [runAct] at hr
+    split at hr
+    · rename_i h1
+      cases hr
+      refine ⟨app_case (by simp [specBlock]) ?_, .inl ⟨by simp, rfl, by simp⟩⟩
+      rw [spec_stmt' hl, leafEntry_one (pathKw_notList .procInj), qt]
+      simp [specEntries, h1]
+    · rename_i h1
+      split at hr
+      · rename_i h2
+        cases hr
+        refine ⟨app_case (by simp [specBlock]) ?_, .inl ⟨by simp, rfl, by simp⟩⟩
+        rw [spec_stmt' hl, leafEntry_one (pathKw_notList .procInj), qf]
+        simp [specEntries, h1, h2]
+      · rename_i h2
+        cases hr
+        exact ⟨noop_case (.inr (by simp [specEntries, h1, h2])), .inl ⟨by simp, rfl, by simp⟩⟩
+  | injT l =>
+    cases s <;> simp only [agreeB, Bool.false_eq_true] at hag
+    rename_i kw
+    cases v with
+    | inj lst =>
+      simp only [runAct] at hr
+      have hsp := spec_injKids kw lst
+      split at hr
+      · rename_i he
+        cases hr
+        have : injKids lst = .nil := by
+          cases hk : injKids lst <;> simp [hk, PForest.isEmpty] at he ⊢
+        rw [this] at hsp
+        refine ⟨noop_case (.inr ?_), .inl ⟨by simp, rfl, by simp⟩⟩
+        simp only [specEntries]
+        rw [← hsp]; simp [PForest.reparsed, specForest_nil]
+      · cases hr
+        refine ⟨app_case (kb := .procInj) rfl ?_, .inl ⟨by simp, rfl, by simp⟩⟩
+        rw [spec_block' hag]
+        exact hsp
+    | _ => simp [wfAct] at hw
+  | execute =>
+    cases s <;> simp [agreeB] at hag
+    cases v with
+    | execute lst =>
+      obtain ⟨f, hf, hsf⟩ := spec_execKids lst (by simpa [wfAct] using hw)
+      simp only [runAct, hf] at hr
+      split at hr
+      · rename_i he
+        cases hr
+        have : lst = [] := by simpa using he
+        subst this
+        exact ⟨noop_case (.inr rfl), .inl ⟨by simp, rfl, by simp⟩⟩
+      · cases hr
+        refine ⟨app_case (kb := .procInj) rfl ?_, .inl ⟨by simp, rfl, by simp⟩⟩
+        rw [spec_block' hexec]
+        exact hsf
+    | _ => simp [wfAct] at hw
+  | allocator =>
+    cases s <;> simp [agreeB] at hag
+    simp only [runAct, Except.ok.injEq] at hr
+    subst hr
+    refine ⟨app_case (kb := .procInj) rfl ?_, .inl ⟨by simp, rfl, by simp⟩⟩
+    rw [spec_stmt' halloc, leafEntry_one (pathKw_notList .procInj)]
+    simp only [specEntries, pathKw]
+    split <;> simp [qn, qv]
+  | gate =>
+    cases s <;> simp [agreeB] at hag
+    cases v with
+    | gate lst =>
+      simp only [runAct, Except.ok.injEq] at hr
+      subst hr
+      refine ⟨app_case (kb := .stage) rfl ?_, .inl ⟨by simp, rfl, by simp⟩⟩
+      rw [spec_block' hgate]
+      exact spec_gateKids lst (by simpa [wfAct] using hw)
+    | _ => simp [wfAct] at hw
+
+
+/-! ### Part 5h: the whole loop, the statements after it, and the dictionary of the result -/
+
+def srvBlk : List Bytes := [k "http-get", k "server"]
+
+theorem contrib_eq_expFor (uris : List (Option Bytes)) (kv : Nat × PVal) (kb : Blk) :
+    contrib uris (specOf kv.1 kv.2) kv.2 kb = expFor uris (pathKw kb) kv := rfl
+
+theorem server_table_facts :
+    specTable.all (fun e => !(specBlock e.2.2 == some srvBlk) || (e.2.2 == .recover && e.1 == 11)) = true := by
+  decide +kernel
+
+theorem specOf_server {idx : Nat} {v : PVal} (h : specBlock (specOf idx v) = some srvBlk) :
+    specOf idx v = .recover ∧ idx = 11 := by
+  unfold specOf at h ⊢
+  split at h
+  · rename_i x g a hf
+    split at h
+    · simp [specBlock] at h
+    · rename_i hg
+      rw [if_neg hg]
+      have hm := List.mem_of_find?_eq_some hf
+      have hk := List.find?_some hf
+      have := List.all_eq_true.mp server_table_facts _ hm
+      simp only [h, beq_self_eq_true, Bool.not_true, Bool.false_or, Bool.and_eq_true, beq_iff_eq] at this
+      simp only [beq_iff_eq] at hk
+      exact ⟨this.1, hk ▸ this.2⟩
+  · simp [specBlock] at h
+
+theorem expFor_server_nil {uris : List (Option Bytes)} {kv : Nat × PVal} (h : specOf kv.1 kv.2 ≠ .recover) :
+    expFor uris srvBlk kv = [] := by
+  unfold expFor
+  dsimp only
+  split
+  · rename_i hb
+    exact absurd (specOf_server (by simpa using hb)).1 h
+  · rfl
+
+/-- invariant of the loop, dictionary side -/
+structure FInv (uris : List (Option Bytes)) (done : List (Nat × PVal)) (st : St) : Prop where
+  blocks : ∀ kb, D st kb = done.flatMap (expFor uris (pathKw kb))
+  server : (st.recover = [] ∧ done.flatMap (expFor uris srvBlk) = []) ∨
+    (∃ l, st.recover = l.map recoverOpt ∧ l ≠ [] ∧ done.flatMap (expFor uris srvBlk) = expServer l)
+
+theorem finv_init (uris : List (Option Bytes)) : FInv uris [] St.init :=
+  ⟨fun kb => by simp [D, St.init, PForest.reparsed, specForest_nil], .inl ⟨rfl, rfl⟩⟩
+
+theorem finv_step {uris : List (Option Bytes)} {done : List (Nat × PVal)} {st st' : St} {kv : Nat × PVal}
+    (hi : FInv uris done st) (hw : wfSetting uris kv = true) (hfresh : ∀ kv' ∈ done, kv'.1 ≠ kv.1)
+    (hr : stepOne uris st kv = .ok st') : FInv uris (done ++ [kv]) st' := by
+  obtain ⟨hb, hs⟩ := runAct_spec uris st st' kv.2 (actionOf kv.1 kv.2) (specOf kv.1 kv.2) (agree_all _ _)
+    (wfSetting_act hw) hr
+  refine ⟨fun kb => ?_, ?_⟩
+  · rw [hb kb, hi.blocks kb, contrib_eq_expFor]
+    simp
+  · rcases hs with ⟨_, hrec, hne⟩ | ⟨l, hv, hrec, hsp, hone⟩
+    · rw [hrec]
+      have : expFor uris srvBlk kv = [] := expFor_server_nil hne
+      rcases hi.server with ⟨h1, h2⟩ | ⟨l, h1, h2, h3⟩
+      · exact .inl ⟨h1, by simp [h2, this]⟩
+      · exact .inr ⟨l, h1, h2, by simp [h3, this]⟩
+    · -- RECOVER: nothing was contributed to the server block before (keys are unique)
+      have hold : done.flatMap (expFor uris srvBlk) = [] := by
+        rw [List.flatMap_eq_nil_iff]
+        intro kv' hkv'
+        apply expFor_server_nil
+        intro hc
+        have h1 := (specOf_server (idx := kv'.1) (v := kv'.2) (by rw [hc]; rfl)).2
+        have h2 := (specOf_server (idx := kv.1) (v := kv.2) (by rw [hsp]; rfl)).2
+        exact hfresh kv' hkv' (h1.trans h2.symm)
+      have hl : l ≠ [] := by intro e; subst e; simp at hone
+      refine .inr ⟨l, hrec, hl, ?_⟩
+      have : expFor uris srvBlk kv = expServer l := by
+        unfold expFor
+        dsimp only
+        rw [hsp, hv]
+        rfl
+      simp [hold, this]
+
+theorem runSettings_finv (uris : List (Option Bytes)) (rest : List (Nat × PVal)) :
+    ∀ (done : List (Nat × PVal)) (st st' : St), FInv uris done st → rest.all (wfSetting uris) = true →
+      ((done ++ rest).map (·.1)).Nodup → runSettings uris st rest = .ok st' → FInv uris (done ++ rest) st' := by
+  induction rest with
+  | nil => intro done st st' hi _ _ hr; simp only [runSettings, Except.ok.injEq] at hr; subst hr; simpa using hi
+  | cons kv rest ih =>
+    intro done st st' hi hw hnd hr
+    simp only [List.all_cons, Bool.and_eq_true] at hw
+    simp only [runSettings] at hr
+    cases h1 : stepOne uris st kv with
+    | error e => simp [h1] at hr
+    | ok st1 =>
+      simp only [h1] at hr
+      have hfresh : ∀ kv' ∈ done, kv'.1 ≠ kv.1 := by
+        intro kv' hkv' he
+        simp only [List.map_append, List.map_cons] at hnd
+        have := (List.nodup_append.mp hnd).2.2 kv'.1 (List.mem_map_of_mem hkv') kv.1 (by simp)
+        exact this he
+      have := ih (done ++ [kv]) st1 st' (finv_step hi hw.1 hfresh h1) hw.2 (by simpa using hnd) hr
+      simpa using this
+
+theorem isEmpty_nil {f : PForest} (h : f.isEmpty = true) : f = .nil := by
+  cases f <;> simp [PForest.isEmpty] at h ⊢
+
+theorem spec_addNonEmpty {ctx m : Nat} {l kw : Bytes} (hb : blockInfoOK ctx l m kw = true) (path : List Bytes)
+    (parent kids : PForest) :
+    specForest ctx path (addNonEmpty parent l kids).reparsed =
+      specForest ctx path parent.reparsed ++ specForest m (path ++ [kw]) kids.reparsed := by
+  unfold addNonEmpty
+  split
+  · rename_i he
+    rw [isEmpty_nil he]
+    simp [PForest.reparsed, specForest_nil]
+  · rw [reparsed_append, specForest_append, spec_block' hb]
+
+theorem final_facts :
+    blockInfoOK (L "value") (b "http_get") (ctxOf .httpGet) (k "http-get") = true ∧
+    blockInfoOK (L "value") (b "http_post") (ctxOf .httpPost) (k "http-post") = true ∧
+    blockInfoOK (L "value") (b "stage") (ctxOf .stage) (k "stage") = true ∧
+    blockInfoOK (L "value") (b "process_inject") (ctxOf .procInj) (k "process-inject") = true ∧
+    blockInfoOK (L "value") (b "dns_beacon") (ctxOf .dns) (k "dns-beacon") = true ∧
+    blockInfoOK (L "value") (b "http_beacon") (ctxOf .httpBeacon) (k "http-beacon") = true ∧
+    blockInfoOK (ctxOf .httpGet) (b "server") httpOptsN (k "server") = true ∧
+    blockInfoOK httpOptsN (b "output") dtN (k "output") = true ∧
+    blockInfoOK (ctxOf .httpGet) (b "client") clientN (k "client") = true ∧
+    blockInfoOK (ctxOf .httpPost) (b "client") clientN (k "client") = true := by decide +kernel
+
+/-- the dictionary of the finished profile is the expected dictionary -/
+theorem finalize_spec {uris : List (Option Bytes)} {cfg : List (Nat × PVal)} {st : St} (hi : FInv uris cfg st) :
+    specDict (finalize st).reparsed = expectedDict cfg uris := by
+  obtain ⟨f1, f2, f3, f4, f5, f6, f7, f8, f9, f10⟩ := final_facts
+  have hsrv : specForest (ctxOf .httpGet) [k "http-get"]
+      (if st.recover.isEmpty then st.f .httpGet
+        else addNonEmpty (st.f .httpGet) (b "server") (block (some (b "output")) (dtKids st.recover))).reparsed =
+      D st .httpGet ++ cfg.flatMap (expFor uris srvBlk) := by
+    rcases hi.server with ⟨h1, h2⟩ | ⟨l, h1, h2, h3⟩
+    · simp [h1, h2, D, pathKw]
+    · have hne : st.recover.isEmpty = false := by
+        rw [h1]; cases l with
+        | nil => exact absurd rfl h2
+        | cons x xs => rfl
+      rw [hne]
+      simp only [Bool.false_eq_true, if_false]
+      rw [spec_addNonEmpty f7, spec_block' f8, h1, h3]
+      have := spec_recover l dtN
+      simp only [srvPath] at this
+      simp only [D, pathKw, List.cons_append, List.nil_append]
+      rw [this]
+  unfold specDict finalize expectedDict
+  dsimp only [PTree.reparsed]
+  rw [show rootCtx = L "value" from rfl]
+  rw [spec_addNonEmpty f6, spec_addNonEmpty f5, spec_addNonEmpty f4, spec_addNonEmpty f3, spec_addNonEmpty f2,
+    spec_addNonEmpty f1, spec_addNonEmpty f10, spec_addNonEmpty f9]
+  simp only [List.nil_append, List.cons_append]
+  rw [hsrv]
+  have hb := hi.blocks
+  simp only [D, pathKw, ctxOf] at hb
+  simp only [D, pathKw, ctxOf]
+  rw [hb .profile, hb .httpGet, hb .getClient, hb .httpPost, hb .postClient, hb .stage, hb .procInj, hb .dns,
+    hb .httpBeacon]
+  simp only [srvBlk, List.append_assoc]
+
+
+/-! ### Part 6: blocks with no content are absent -/
+
+/-- labels of the nodes that are printed as `keyword { … }` -/
+def braceLabels : List Bytes :=
+  [b "http_get", b "http_post", b "stage", b "process_inject", b "dns_beacon", b "http_beacon", b "client", b "server",
+   b "output", b "metadata", b "id", b "transform_x86", b "transform_x64", b "execute", b "beacon_gate"]
+
+def braceLabel : Option Bytes → Bool
+  | some x => braceLabels.contains x
+  | Option.none => false
+
+/-- no `{ }` block of the forest (at any depth) is empty -/
+def noEmptyBlocks : PForest → Bool
+  | .nil => true
+  | .tok _ _ r => noEmptyBlocks r
+  | .node l ks r => (!braceLabel l || !ks.isEmpty) && noEmptyBlocks ks && noEmptyBlocks r
+
+theorem ne_append (x y : PForest) : noEmptyBlocks (x ++ y) = (noEmptyBlocks x && noEmptyBlocks y) := by
+  show noEmptyBlocks (PForest.append x y) = _
+  induction x with
+  | nil => simp [PForest.append, noEmptyBlocks]
+  | tok o t r ih => simp [PForest.append, noEmptyBlocks, ih]
+  | node l k r _ ih => simp [PForest.append, noEmptyBlocks, ih, Bool.and_assoc]
+
+theorem ne_flatten (fs : List PForest) (h : ∀ f ∈ fs, noEmptyBlocks f = true) : noEmptyBlocks (PForest.flatten fs) = true := by
+  induction fs with
+  | nil => rfl
+  | cons f fs ih => rw [flatten_cons, ne_append, h f (by simp), ih fun g hg => h g (by simp [hg])]; rfl
+
+theorem brace_string : braceLabel (some (b "string")) = false := by decide +kernel
+
+theorem ne_strKids (args : List Bytes) : noEmptyBlocks (strKids args) = true := by
+  induction args with
+  | nil => rfl
+  | cons a as ih => simp [strKids, noEmptyBlocks, brace_string, ih]
+
+theorem ne_stmt {l : Bytes} (args : List Bytes) (h : braceLabel (some l) = false ∨ args ≠ []) :
+    noEmptyBlocks (stmt l args) = true := by
+  simp only [stmt, noEmptyBlocks, ne_strKids, Bool.and_true, Bool.or_eq_true, Bool.not_eq_eq_eq_not, Bool.not_true]
+  rcases h with h | h
+  · exact .inl h
+  · right; cases args with
+    | nil => exact absurd rfl h
+    | cons a as => rfl
+
+theorem ne_block {l : Option Bytes} {kids : PForest} (hk : noEmptyBlocks kids = true) (hne : kids.isEmpty = false) :
+    noEmptyBlocks (block l kids) = true := by
+  simp [block, noEmptyBlocks, hk, hne]
+
+theorem ne_optStmt (name s : Bytes) : noEmptyBlocks (optStmt name s) = true := by
+  simp [optStmt, noEmptyBlocks, ne_strKids, strKids, PForest.isEmpty]
+
+/-! data transforms: whatever the options are -/
+
+theorem dt_name_facts :
+    (dtFlagSteps.all fun n => !braceLabel (some n)) = true ∧
+    (dtTermOptions.all fun n => !braceLabel (some (dashToUnderscore n))) = true ∧
+    braceLabel (some (b "data_transform")) = false ∧ braceLabel (some (b "steps")) = false ∧
+    braceLabel (some (b "termination")) = false := by decide +kernel
+
+theorem dtClassify_bare_eq (n : Bytes) : dtClassify (.bare n) =
+    if dtFlagSteps.contains n then (stmt n [], .nil)
+    else if dtTermOptions.contains n then (.nil, stmt (dashToUnderscore n) [])
+    else
+      match n with
+      | [c0, c1] => (stmt [c0] [C12.valueToStringStr [c1]], .nil)
+      | _ => (.nil, .nil) := rfl
+
+theorem dtClassify_pair_eq (n : Bytes) (v : DArg) : dtClassify (.pair n v) =
+    if dtArgTerms.contains n then (.nil, stmt n [v.vts]) else (stmt n [v.vts], .nil) := rfl
+
+theorem ne_classify (o : DOpt) : noEmptyBlocks (dtClassify o).1 = true ∧ noEmptyBlocks (dtClassify o).2 = true := by
+  obtain ⟨hf, ht, _, _, _⟩ := dt_name_facts
+  cases o with
+  | bare n =>
+    rw [dtClassify_bare_eq]
+    split
+    · rename_i h
+      have := List.all_eq_true.mp hf n (by simpa using h)
+      exact ⟨ne_stmt [] (.inl (by simpa using this)), rfl⟩
+    · split
+      · rename_i h
+        have := List.all_eq_true.mp ht n (by simpa using h)
+        exact ⟨rfl, ne_stmt [] (.inl (by simpa using this))⟩
+      · split
+        · exact ⟨ne_stmt _ (.inr (by simp)), rfl⟩
+        · exact ⟨rfl, rfl⟩
+  | pair n v =>
+    rw [dtClassify_pair_eq]
+    split
+    · exact ⟨rfl, ne_stmt _ (.inr (by simp))⟩
+    · exact ⟨ne_stmt _ (.inr (by simp)), rfl⟩
+
+theorem ne_dtKids (ds : List DOpt) : noEmptyBlocks (dtKids ds) = true ∧ (dtKids ds).isEmpty = false := by
+  obtain ⟨_, _, h1, h2, h3⟩ := dt_name_facts
+  have hs : noEmptyBlocks (dtSteps ds) = true := ne_flatten _ (by
+    intro f hf; obtain ⟨o, _, rfl⟩ := List.mem_map.mp hf; exact (ne_classify o).1)
+  have ht : noEmptyBlocks (dtTerms ds) = true := ne_flatten _ (by
+    intro f hf; obtain ⟨o, _, rfl⟩ := List.mem_map.mp hf; exact (ne_classify o).2)
+  exact ⟨by simp [dtKids, noEmptyBlocks, h1, h2, h3, hs, ht], rfl⟩
+
+theorem ne_requestKids (prog : List TStep) : noEmptyBlocks (requestKids prog) = true := by
+  unfold requestKids
+  simp only [ne_append, Bool.and_eq_true]
+  refine ⟨?_, ?_, ?_⟩
+  · exact ne_flatten _ (by intro f hf; obtain ⟨p, _, rfl⟩ := List.mem_map.mp hf; exact ne_stmt _ (.inr (by simp)))
+  · exact ne_flatten _ (by intro f hf; obtain ⟨p, _, rfl⟩ := List.mem_map.mp hf; exact ne_stmt _ (.inr (by simp)))
+  · exact ne_flatten _ (by
+      intro f hf; obtain ⟨g, _, rfl⟩ := List.mem_map.mp hf
+      exact ne_block (ne_dtKids g.2).1 (ne_dtKids g.2).2)
+
+/-! the chain -/
+
+def actNE : Act → Bool
+  | .blkOpt _ l => !braceLabel (some l)
+  | .blkConst _ l _ => !braceLabel (some l)
+  | .perms l _ _ => !braceLabel (some l)
+  | _ => true
+
+theorem table_ne : actionTable.all (fun e => actNE e.2.2 && (!(e.2.2 == .gate) || e.2.1)) = true := by decide +kernel
+
+theorem actionOf_ne (idx : Nat) (v : PVal) :
+    actNE (actionOf idx v) = true ∧ (actionOf idx v = .gate → v.truthy = true) := by
+  unfold actionOf
+  split
+  · rename_i x g a hf
+    have := List.all_eq_true.mp table_ne _ (List.mem_of_find?_eq_some hf)
+    simp only [Bool.and_eq_true, Bool.or_eq_true, Bool.not_eq_eq_eq_not, Bool.not_true, beq_eq_false_iff_ne] at this
+    split
+    · exact ⟨rfl, fun h => by cases h⟩
+    · rename_i hg
+      refine ⟨this.1, fun ha => ?_⟩
+      rcases this.2 with h | h
+      · exact absurd ha h
+      · subst h
+        simpa using hg
+  · exact ⟨rfl, fun h => by cases h⟩
+
+theorem misc_ne_facts :
+    braceLabel (some (b "uri")) = false ∧ braceLabel (some (b "allocator")) = false ∧
+    (execEnable.all fun s => !braceLabel (some (dashToUnderscore (lower s)))) = true ∧
+    (gateLabels.all fun s => !braceLabel (some (lower s))) = true := by decide +kernel
+
+theorem ne_injKids (l : List (Bool × Bytes)) : noEmptyBlocks (injKids l) = true := by
+  unfold injKids
+  rw [ne_append, Bool.and_eq_true]
+  constructor
+  · cases injLast true l with
+    | none => rfl
+    | some v => dsimp only; split; rfl; exact ne_stmt _ (.inr (by simp))
+  · cases injLast false l with
+    | none => rfl
+    | some v => dsimp only; split; rfl; exact ne_stmt _ (.inr (by simp))
+
+theorem ne_execItem {s : Bytes} (h : wfExecItem (some s) = true) :
+    ∃ f, execItem (some s) = .ok f ∧ noEmptyBlocks f = true ∧ f.isEmpty = false := by
+  obtain ⟨_, _, hen, _⟩ := misc_ne_facts
+  refine ⟨_, rfl, ?_, ?_⟩
+  · rw [ne_append]
+    have h1 : noEmptyBlocks (if execEnable.contains s then stmt (dashToUnderscore (lower s)) [] else .nil) = true := by
+      split
+      · rename_i hc
+        have := List.all_eq_true.mp hen s (by simpa using hc)
+        exact ne_stmt [] (.inl (by simpa using this))
+      · rfl
+    rw [h1, Bool.and_true]
+    split
+    · dsimp only
+      split
+      · exact ne_stmt _ (.inr (by simp))
+      · split
+        · exact ne_stmt _ (.inr (by simp))
+        · rfl
+    · rfl
+  · simp only [wfExecItem, Bool.and_eq_true, Bool.or_eq_true, decide_eq_true_eq] at h
+    rcases h.2 with hm | ⟨⟨hsp, hname⟩, _⟩
+    · simp only [hm, if_true]
+      generalize (if s.contains 32 then _ else PForest.nil : PForest) = sp
+      cases sp <;> rfl
+    · simp only [hsp, if_true]
+      rcases hname with h1 | h1
+      · simp only [h1]
+        rw [if_pos (show k "CreateThread" = b "CreateThread" from rfl)]
+        rfl
+      · simp only [h1]
+        rw [if_neg (by decide +kernel : ¬ k "CreateRemoteThread" = b "CreateThread"),
+          if_pos (show k "CreateRemoteThread" = b "CreateRemoteThread" from rfl)]
+        rfl
+
+theorem ne_execKids (l : List (Option Bytes)) (h : l.all wfExecItem = true) :
+    ∃ f, execKids l = .ok f ∧ noEmptyBlocks f = true ∧ (l ≠ [] → f.isEmpty = false) := by
+  induction l with
+  | nil => exact ⟨.nil, rfl, rfl, fun h => absurd rfl h⟩
+  | cons i is ih =>
+    simp only [List.all_cons, Bool.and_eq_true] at h
+    obtain ⟨r, hr, hnr, _⟩ := ih h.2
+    cases i with
+    | none => simp [wfExecItem] at h
+    | some s =>
+      obtain ⟨f, hf, hnf, hef⟩ := ne_execItem h.1
+      refine ⟨f ++ r, by simp only [execKids, hf, hr], by rw [ne_append, hnf, hnr]; rfl, fun _ => ?_⟩
+      cases f with
+      | nil => simp [PForest.isEmpty] at hef
+      | tok o t r' => rfl
+      | node l k r' => rfl
+
+/-- invariant: no block object holds an empty `{ }` block -/
+def NEInv (st : St) : Prop := ∀ kb, noEmptyBlocks (st.f kb) = true
+
+theorem ne_app {st : St} (h : NEInv st) (kb : Blk) {g : PForest} (hg : noEmptyBlocks g = true) : NEInv (st.app kb g) := by
+  intro kb'
+  simp only [St.app]
+  split
+  · rw [ne_append, h kb', hg]; rfl
+  · exact h kb'
+
+theorem runAct_ne (uris : List (Option Bytes)) (st st' : St) (v : PVal) (a : Act) (ha : actNE a = true)
+    (hg : a = .gate → v.truthy = true) (hw : wfAct uris a v = true) (hi : NEInv st)
+    (hr : runAct uris st v a = .ok st') : NEInv st' := by
+  obtain ⟨huri, halloc, _, hgl⟩ := misc_ne_facts
+  cases a with
+  | pass => cases hr; exact hi
+  | profOpt name =>
+    simp only [runAct] at hr
+    split at hr
+    · cases hr; exact ne_app hi _ (ne_optStmt _ _)
+    · cases hr
+  | blkOpt kb l =>
+    simp only [runAct] at hr
+    split at hr
+    · cases hr; exact ne_app hi _ (ne_stmt _ (.inr (by simp)))
+    · cases hr
+  | blkConst kb l t => cases hr; exact ne_app hi _ (ne_stmt _ (.inr (by simp)))
+  | uris =>
+    simp only [runAct] at hr
+    split at hr
+    · cases hr; exact ne_app hi _ (ne_stmt _ (.inr (by simp)))
+    · cases hr
+  | recover =>
+    cases v with
+    | recover l => cases hr; exact hi
+    | _ => simp [wfAct] at hw
+  | request c =>
+    cases v with
+    | transform prog => cases hr; exact ne_app hi _ (ne_requestKids prog)
+    | _ => cases c <;> simp [wfAct] at hw
+  | perms l t f =>
+    simp only [runAct] at hr
+    split at hr
+    · cases hr; exact ne_app hi _ (ne_stmt _ (.inr (by simp)))
+    · split at hr
+      · cases hr; exact ne_app hi _ (ne_stmt _ (.inr (by simp)))
+      · cases hr; exact hi
+  | injT l =>
+    cases v with
+    | inj lst =>
+      simp only [runAct] at hr
+      split at hr
+      · cases hr; exact hi
+      · rename_i hne
+        cases hr
+        exact ne_app hi _ (ne_block (ne_injKids lst) (by simpa using hne))
+    | _ => simp [wfAct] at hw
+  | execute =>
+    cases v with
+    | execute lst =>
+      obtain ⟨f, hf, hnf, hef⟩ := ne_execKids lst (by simpa [wfAct] using hw)
+      simp only [runAct, hf] at hr
+      split at hr
+      · cases hr; exact hi
+      · rename_i hne
+        cases hr
+        exact ne_app hi _ (ne_block hnf (hef (by intro e; subst e; simp at hne)))
+    | _ => simp [wfAct] at hw
+  | allocator => cases hr; exact ne_app hi _ (ne_stmt _ (.inr (by simp)))
+  | gate =>
+    cases v with
+    | gate lst =>
+      cases hr
+      have hne : lst ≠ [] := by
+        intro e; subst e
+        have := hg rfl
+        simp [PVal.truthy] at this
+      refine ne_app hi _ (ne_block (ne_flatten _ ?_) ?_)
+      · intro f hf
+        obtain ⟨s, hs, rfl⟩ := List.mem_map.mp hf
+        have hm : s ∈ gateLabels := by
+          have := List.all_eq_true.mp (by simpa [wfAct] using hw : lst.all gateLabels.contains = true) s hs
+          simpa using this
+        have := List.all_eq_true.mp hgl s hm
+        exact ne_stmt [] (.inl (by simpa using this))
+      · cases lst with
+        | nil => exact absurd rfl hne
+        | cons s rest => rfl
+    | _ => simp [wfAct] at hw
+
+theorem runSettings_ne (uris : List (Option Bytes)) (cfg : List (Nat × PVal)) :
+    ∀ st st', cfg.all (wfSetting uris) = true → NEInv st → runSettings uris st cfg = .ok st' → NEInv st' := by
+  induction cfg with
+  | nil => intro st st' _ hi hr; cases hr; exact hi
+  | cons kv rest ih =>
+    intro st st' hw hi hr
+    simp only [List.all_cons, Bool.and_eq_true] at hw
+    simp only [runSettings] at hr
+    cases h1 : stepOne uris st kv with
+    | error e => simp [h1] at hr
+    | ok st1 =>
+      simp only [h1] at hr
+      have hne := actionOf_ne kv.1 kv.2
+      exact ih st1 st' hw.2 (runAct_ne uris st st1 kv.2 _ hne.1 hne.2 (wfSetting_act hw.1) hi h1) hr
+
+theorem ne_addNonEmpty {parent kids : PForest} {l : Bytes} (hp : noEmptyBlocks parent = true)
+    (hk : noEmptyBlocks kids = true) : noEmptyBlocks (addNonEmpty parent l kids) = true := by
+  unfold addNonEmpty
+  split
+  · exact hp
+  · rename_i hne
+    rw [ne_append, hp, ne_block hk (by simpa using hne)]; rfl
+
+theorem finalize_ne {st : St} (hi : NEInv st) : noEmptyBlocks (finalize st).kids = true := by
+  unfold finalize
+  dsimp only
+  have hg1 : noEmptyBlocks (if st.recover.isEmpty then st.f .httpGet
+      else addNonEmpty (st.f .httpGet) (b "server") (block (some (b "output")) (dtKids st.recover))) = true := by
+    split
+    · exact hi .httpGet
+    · exact ne_addNonEmpty (hi .httpGet) (ne_block (ne_dtKids _).1 (ne_dtKids _).2)
+  exact ne_addNonEmpty (ne_addNonEmpty (ne_addNonEmpty (ne_addNonEmpty (ne_addNonEmpty
+    (ne_addNonEmpty (hi .profile) (ne_addNonEmpty hg1 (hi .getClient)))
+    (ne_addNonEmpty (hi .httpPost) (hi .postClient))) (hi .stage)) (hi .procInj)) (hi .dns)) (hi .httpBeacon)
+
+
 end C13
